@@ -35,25 +35,31 @@ struct weekday {
 
     constexpr auto operator++() noexcept -> weekday& { return *this += etl::chrono::days{1}; }
 
-    constexpr auto operator++(int) noexcept -> weekday { return *this += etl::chrono::days{1}; }
+    constexpr auto operator++(int) noexcept -> weekday
+    {
+        auto tmp = *this;
+        ++(*this);
+        return tmp;
+    }
 
     constexpr auto operator--() noexcept -> weekday& { return *this -= etl::chrono::days{1}; }
 
-    constexpr auto operator--(int) noexcept -> weekday { return *this -= etl::chrono::days{1}; }
+    constexpr auto operator--(int) noexcept -> weekday
+    {
+        auto tmp = *this;
+        --(*this);
+        return tmp;
+    }
 
     constexpr auto operator+=(days const& d) noexcept -> weekday&
     {
-        _wd += d.count();
-        _wd %= 7;
+        auto const wd   = static_cast<long long>(_wd) + d.count();
+        auto const week = (wd >= 0 ? wd : wd - 6) / 7;
+        _wd             = static_cast<etl::uint8_t>(wd - week * 7);
         return *this;
     }
 
-    constexpr auto operator-=(days const& d) noexcept -> weekday&
-    {
-        _wd -= d.count();
-        _wd %= 7;
-        return *this;
-    }
+    constexpr auto operator-=(days const& d) noexcept -> weekday& { return *this += -d; }
 
     [[nodiscard]] constexpr auto c_encoding() const noexcept -> unsigned { return _wd; }
 
@@ -83,15 +89,14 @@ private:
 
 [[nodiscard]] constexpr auto operator+(weekday const& lhs, days const& rhs) noexcept -> weekday
 {
-    return weekday{static_cast<unsigned>((static_cast<int32_t>(lhs.c_encoding()) + rhs.count()) % 7)};
+    auto wd = lhs;
+    wd += rhs;
+    return wd;
 }
 
 [[nodiscard]] constexpr auto operator+(days const& lhs, weekday const& rhs) noexcept -> weekday { return rhs + lhs; }
 
-[[nodiscard]] constexpr auto operator-(weekday const& lhs, days const& rhs) noexcept -> weekday
-{
-    return weekday{static_cast<unsigned>((static_cast<int32_t>(lhs.c_encoding()) - rhs.count()) % 7)};
-}
+[[nodiscard]] constexpr auto operator-(weekday const& lhs, days const& rhs) noexcept -> weekday { return lhs + -rhs; }
 
 [[nodiscard]] constexpr auto operator-(weekday const& lhs, weekday const& rhs) noexcept -> days
 {
